@@ -450,7 +450,7 @@ theorem two_pow_eq_iff {a b : Nat} : 2 ^ a = 2 ^ b ↔ a = b :=
 theorem order_shl_one {i : Nat} (h : i ≤ 63) : order (shl 1 i) = i := by
   rw [shl_one (by omega), order_two_pow]
 
-theorem invL_rz {c : Cfg} (hc : c.mo ≤ 63) {s s' : State} (hA : InvA c s) (hD : InvD c s) (h : InvL s)
+theorem invL_rz {c : Cfg} (_hc : c.mo ≤ 63) {s s' : State} (hA : InvA c s) (hD : InvD c s) (h : InvL s)
     (st : rzStep s = some s') : InvL s' ∧ s.dead = false := by
   have hdead : s.dead = false := by
     cases hd : s.dead with
@@ -472,7 +472,7 @@ theorem invL_rz {c : Cfg} (hc : c.mo ≤ 63) {s s' : State} (hA : InvA c s) (hD 
   all_goals constructor
   all_goals (try intro)
   all_goals (try simp only [LvlOk])
-  all_goals simp only [upd, FrOk, base, freeOk_eq, removeOk_eq, Bool.or_eq_false_iff, bne_eq_false_iff_eq, Bool.not_eq_false', hb, Bool.false_or] at *
+  all_goals simp only [upd, FrOk, base, freeOk_eq, removeOk_eq, bne_eq_false_iff_eq, Bool.not_eq_false', hb, Bool.false_or] at *
   all_goals grind [unpubLt_mono, removedLt_mono, unpubLt_self, removedLt_self, unpubLt_ne, removedLt_ne, order_shl_one]
 
 
